@@ -13,6 +13,13 @@ func extractService(out string) {
 	for _, fn := range []string{"Add", "Remove", "Receive"} {
 		l.strList(lowerFirst(fn)+"Flow", flowTokens(mustFunc(f, file, "*serviceImpl", fn), "s", fields, calls))
 	}
+	// the objects on the client's side of a service: the counter, the table, the handler
+	fr := load("bus/service_reference.go")
+	cfields := []string{"nextID", "objectsHandlers"}
+	ccalls := []string{"Activate", "MakeHandler", "RemoveHandler", "Remove", "OnTerminate", "Errorf"}
+	for _, fn := range []string{"Add", "Remove", "Terminate"} {
+		l.strList("client"+fn+"Flow", flowTokens(mustFunc(fr, "bus/service_reference.go", "*clientService", fn), "c", cfields, ccalls))
+	}
 	l.write(out, "Service.lean")
 }
 
